@@ -1,6 +1,7 @@
 package c10
 
 import (
+	"strings"
 	"testing"
 
 	"verifharness/hx"
@@ -19,6 +20,20 @@ func TestC10(t *testing.T) {
 	run.SetRule("schedules of Put/Get/FindMissing on real hierarchical CAS stores over instance names {'', a, ab, a/b, a/b/c, b} (string- but not " +
 		"component-prefixes included), the same content uploaded under several names (aliases), uploads interleaved chunk by chunk, rotations; " +
 		"oracle: an object is returned / reported present under J only if a successful upload under a component-wise prefix of J exists; " +
-		"non-trivial = at least one block rotation; distinct by script hash")
+		"non-trivial = at least one block rotation; distinct by script hash. In addition (no model, oracle only): histories of valid and invalid uploads, reads and " +
+		"existence checks on stores built by NewBlobAccessFromConfiguration (hierarchical local backend alone and behind existence_caching), incl. the announced digest key format")
+	// stores built from configuration messages (hierarchical local backend alone and behind existence caching)
+	if name, script := run.ReplayScript(); script != nil && strings.HasPrefix(script[0], "#cs") {
+		cfgCase(run, name, script)
+		return
+	}
+	if run.Replay == "" {
+		for name, script := range run.CorpusScripts() {
+			if strings.HasPrefix(script[0], "#cs") {
+				cfgCase(run, "corpus/"+name, script)
+			}
+		}
+		cfgCases(run, run.Scale(300, 5000))
+	}
 	stx.Main(run, model, "C10", []string{"C10", "C01"}, []string{"hier"}, 2500, 16000)
 }
